@@ -30,9 +30,9 @@ RULE = ("case = (base configuration, fault kind); inside: all fault positions of
         "monitor_counters: runs per fault kind, expected TOO_FEW runs, budget checks")
 ASSUMPTIONS = ["evaluators are deterministic, so a run with max_functions follows the unlimited run up to the stop", "realization weights are positive in this check (zero weights are C01/C06 territory)"]
 REQUIRED = {"quick": {"nan_fault_runs": 1500, "expected_too_few_runs": 700, "expected_ok_runs": 400, "max_functions_runs": 450, "user_exception_runs": 400,
-                      "evaluator_step_runs": 80, "filter_induced_too_few": 30, "estimator_induced_too_few": 40, "delivery_checked": 700, "__nontrivial__": 3000},
+                      "evaluator_step_runs": 80, "filter_induced_too_few": 30, "estimator_induced_too_few": 40, "delivery_checked": 700, "max_functions_runs_with_all_failed_evaluations": 4, "__nontrivial__": 3000},
             "thorough": {"nan_fault_runs": 15000, "expected_too_few_runs": 7000, "expected_ok_runs": 4000, "max_functions_runs": 4000, "user_exception_runs": 4000,
-                         "evaluator_step_runs": 800, "filter_induced_too_few": 300, "estimator_induced_too_few": 400, "delivery_checked": 7000, "__nontrivial__": 30000}}
+                         "evaluator_step_runs": 800, "filter_induced_too_few": 300, "estimator_induced_too_few": 400, "delivery_checked": 7000, "max_functions_runs_with_all_failed_evaluations": 40, "__nontrivial__": 30000}}
 N = {"quick": 154, "thorough": 1400}
 KMAX = {"quick": 8, "thorough": 14}
 METHODS = ["slsqp", "l-bfgs-b", "evaluator_step", "nelder-mead", "cobyla", "differential_evolution", "evaluator_step"]
@@ -322,6 +322,15 @@ def run_case(case, obs):
     elif case["kind"] == "maxf":
         if method == "evaluator_step":
             return
+        if method == "differential_evolution" and spec["R"] >= 1 and case["i"] % 2 == 0:
+            # all-failed evaluations (tolerated with realization_min_success = 0) still use up the function budget
+            spec = dict(spec, rmin=0, filters=None, omap_f=None, cmap_f=None, estimators=None, omap_est=None)
+            spec["nan"] = [{"call": k, "r": r, "p": -1, "col": 0} for k in (1, 2, 4) for r in range(spec["R"])]
+            base = execute(method, spec, tspec)
+            obs.count("max_functions_runs_with_all_failed_evaluations")
+            if base.exc is not None:
+                obs.violation("baseline_exception", exception=repr(base.exc), method=method)
+                return
         Fn = nfunctions(base)
         parallel = bool(spec["optimizer"].get("parallel"))
         for m in range(1, Fn + 2):
